@@ -25,7 +25,7 @@ func init() {
 		Plan: func(tier string) Plan {
 			return Plan{Level: "exploration", NCases: pick(tier, 720, 12000), Batch: 10, CaseTimeout: 60,
 				Rule: "one case = one PRNG sequence of 20-200 steps on one engine (memkv / Badger / TiKV mock, each also behind the metrics wrapper with the real Prometheus client): " +
-					"batches of 1-4 ops from {put-if-absent, CAS, put, del, delete-current} on distinct keys incl. several conditions per batch and conditions on missing keys; Get; Del; DelCurrent; forward/backward/limited Iter with bounds on/between/outside keys and writes slipped in between creating and draining the iterator; every 5th case instead runs 8 concurrent readers (iterators with non-stored bounds, gets of missing keys) over an unchanging store, whose results must be exact. " +
+					"batches of 1-4 ops from {put-if-absent, CAS, put, del, delete-current} on distinct keys incl. several conditions per batch and conditions on missing keys; Get; Del; DelCurrent; forward/backward/limited Iter with bounds on/between/outside keys and writes slipped in between creating and draining the iterator; every 5th case instead runs 8 concurrent readers (iterators with non-stored bounds, gets of missing keys) over an unchanging store, whose results must be exact, and another every 5th runs 6 concurrent conditional writers released together (put-if-absent on a fresh key: exactly one commits; compare-and-swap increments: counter == acknowledged successes). " +
 					"oracle = sorted-map reference in lock-step (all-or-nothing batches, failure <=> some condition false and then errors.Is(err, ErrCASFailed), iterator output = reference slice of the snapshot at creation, or a prefix of length >= limit). " +
 					"non-trivial = sequence with >=1 failed multi-op batch, >=1 backward and >=1 limited iteration and >=1 write slipped under an open iterator; distinct by (engine, step-kind/outcome vector)",
 				Assumptions: []string{"TTL argument is always 0", "ops of one batch touch distinct keys (the contract does not define same-key ordering)",
@@ -169,11 +169,102 @@ func runC11Readers(c *harness.Case, kind string) {
 	c.Fingerprint(true, "readers", kind, c.Index)
 }
 
+// runC11Writers: concurrent conditional writers. Per round all goroutines are released together on one fresh key
+// (put-if-absent: exactly one may succeed) and on one counter key (compare-and-swap increment: the final value
+// must equal the number of successes, every success saw the value it replaced).
+func runC11Writers(c *harness.Case, kind string) {
+	eng, err := harness.NewEngine(kind)
+	if err != nil {
+		c.Inconclusive(err.Error())
+		return
+	}
+	defer eng.Close()
+	kv := eng.KV
+	if harness.IsMetricsKind(kind) {
+		kv = harness.WithMetrics(kv, harness.NewRecMetrics(true))
+	}
+	ctx := context.Background()
+	const workers = 6
+	rounds := 400
+	if eng.Kind != "memkv" {
+		rounds = 120
+	}
+	b0 := kv.BeginBatchWrite()
+	b0.Put([]byte("counter"), []byte("0"), 0)
+	if err := b0.Commit(ctx); err != nil {
+		c.Inconclusive("put failed")
+		return
+	}
+	var casOK int64
+	otherErrs := int64(0)
+	for round := 0; round < rounds; round++ {
+		key := []byte(fmt.Sprintf("fresh-%04d", round))
+		var wg sync.WaitGroup
+		start := make(chan struct{})
+		var pineOK int64
+		for g := 0; g < workers; g++ {
+			wg.Add(1)
+			go func(g int) {
+				defer wg.Done()
+				<-start
+				b := kv.BeginBatchWrite()
+				b.PutIfNotExist(key, []byte(fmt.Sprintf("w%d", g)), 0)
+				err := b.Commit(ctx)
+				switch {
+				case err == nil:
+					atomic.AddInt64(&pineOK, 1)
+				case !errors.Is(err, storage.ErrCASFailed):
+					atomic.AddInt64(&otherErrs, 1) // an engine may abort a conflicting transaction with its own error
+				}
+				// compare-and-swap increment of the shared counter
+				cur, gerr := kv.Get(ctx, []byte("counter"))
+				if gerr != nil {
+					return
+				}
+				var n int
+				fmt.Sscanf(string(cur), "%d", &n)
+				b2 := kv.BeginBatchWrite()
+				b2.CAS([]byte("counter"), []byte(fmt.Sprintf("%d", n+1)), cur, 0)
+				if b2.Commit(ctx) == nil {
+					atomic.AddInt64(&casOK, 1)
+				}
+			}(g)
+		}
+		close(start)
+		wg.Wait()
+		if pineOK > 1 {
+			c.Violatef("C11 put-if-absent-succeeded-for-several-concurrent-writers engine="+eng.Kind, map[string]interface{}{"engine": kind, "round": round},
+				"round %d: %d of %d concurrent put-if-absent batches on the fresh key %q committed", round, pineOK, workers, key)
+			return
+		}
+		if pineOK == 0 && atomic.LoadInt64(&otherErrs) == 0 {
+			c.Violatef("C11 put-if-absent-failed-for-every-concurrent-writer engine="+eng.Kind, map[string]interface{}{"engine": kind, "round": round},
+				"round %d: none of %d concurrent put-if-absent batches on the fresh key %q committed and none reported an engine error", round, workers, key)
+			return
+		}
+	}
+	cur, _ := kv.Get(ctx, []byte("counter"))
+	var final int64
+	fmt.Sscanf(string(cur), "%d", &final)
+	if final != atomic.LoadInt64(&casOK) {
+		c.Violatef("C11 compare-and-swap-lost-an-update engine="+eng.Kind, map[string]interface{}{"engine": kind},
+			"%d compare-and-swap increments were acknowledged but the counter reads %d: two batches succeeded from the same observed value", casOK, final)
+	}
+	c.Stat("concurrent_writer_rounds", int64(rounds))
+	c.Stat("cas_increments_acknowledged", casOK)
+	c.AddSet("engines", kind)
+	c.Fingerprint(true, "writers", kind, c.Index)
+}
+
 func runC11(c *harness.Case) {
 	r := c.Rng
 	kind := c11Engines[c.Index%len(c11Engines)]
-	if (c.Index/len(c11Engines))%5 == 4 {
+	switch (c.Index / len(c11Engines)) % 5 {
+	case 4:
 		runC11Readers(c, kind)
+		return
+	case 3:
+		runC11Writers(c, kind)
 		return
 	}
 	eng, err := harness.NewEngine(kind)
